@@ -91,9 +91,9 @@ type CKKSCase struct {
 	PBPowers    []int          `json:"pbPowers"`
 	Lazy        bool           `json:"lazy"`
 	MixedParity bool           `json:"mixedParity"`
-	Sparse      bool           `json:"sparse"`   // sparse packing with 2^LogSlots slots
+	Sparse      bool           `json:"sparse"` // sparse packing with 2^LogSlots slots
 	LogSlots    int            `json:"logSlots"`
-	Degree2     int            `json:"degree2"`  // > 0: a second polynomial evaluated afterwards with the SAME evaluator and input object
+	Degree2     int            `json:"degree2"` // > 0: a second polynomial evaluated afterwards with the SAME evaluator and input object
 	Coeffs2     [][][2]float64 `json:"coeffs2"`
 	Target2Rel  float64        `json:"target2Rel"`
 }
@@ -149,13 +149,16 @@ func genCKKS(t *rapid.T) CKKSCase {
 		b := rapid.IntRange(40, 50).Draw(t, "logScale")
 		c.Params.LogScale = b
 		nL := []int{3, 2, 4, 5, 1, 3, 4, 5}[rapid.IntRange(0, 7).Draw(t, "levels")]
+		if h.Thorough() && nL == 5 && rapid.Bool().Draw(t, "deep") {
+			nL = 6 // degrees up to 63
+		}
 		c.Params.Q = append(h.GenPrimes(t, []int{60}, m, used, "q0"), nearPow2Primes(t, b, nL, m, used, "q")...)
 		c.Params.P = h.GenPrimes(t, []int{61}, m, used, "p")
 	}
 	L = len(c.Params.Q) - 1
 	maxDepth := L / lcpr // output may sit at level 0 (PREC64) or 1 (PREC128)
-	if maxDepth > 5 {
-		maxDepth = 5
+	if maxDepth > 6 {
+		maxDepth = 6
 	}
 
 	c.Seed = rapid.Uint64().Draw(t, "seed")
@@ -189,7 +192,12 @@ func genCKKS(t *rapid.T) CKKSCase {
 	}
 	// sum |c_k| <= 8 keeps |p(x)| * scale far below the level-0 modulus
 	amp := math.Min(1, 8/float64(c.Degree+1))
+	kinds := []string{"real", "real", "mixed", "imag", "mixed", "real"}
 	for i := 0; i < npoly; i++ {
+		if i > 0 && !c.Params.CI && rapid.IntRange(0, 2).Draw(t, fmt.Sprintf("ownKind%d", i)) == 0 {
+			// polynomials of one vector over different coefficient fields
+			coeffKind = kinds[rapid.IntRange(0, 5).Draw(t, fmt.Sprintf("coeffKind%d", i))]
+		}
 		sh := genShape(t, fmt.Sprintf("shape%d", i), c.Kind != "bignum")
 		if i > 0 && !c.MixedParity {
 			sh.Parity = c.Shapes[0].Parity
@@ -240,6 +248,14 @@ func genCKKS(t *rapid.T) CKKSCase {
 	}
 	if c.Kind == "vector" {
 		c.Owners = genOwners(t, slots, npoly)
+	} else if rapid.IntRange(0, 3).Draw(t, "sparse") == 0 {
+		// sparse packing (the slot-mapped vector kind needs all slots)
+		c.Sparse = true
+		logMax := c.Params.LogN
+		if !c.Params.CI {
+			logMax--
+		}
+		c.LogSlots = rapid.IntRange(0, logMax-1).Draw(t, "logSlots")
 	}
 	c.ValPattern = ckksValPatterns[rapid.IntRange(0, len(ckksValPatterns)-1).Draw(t, "valPattern")]
 	c.ValSeed = rapid.Uint64().Draw(t, "valSeed")
@@ -263,6 +279,46 @@ func genCKKS(t *rapid.T) CKKSCase {
 	}
 	if c.Kind != "bignum" && !c.MixedParity {
 		c.Lazy = rapid.IntRange(0, 7).Draw(t, "lazy") == 0
+	}
+	if !c.Short && !c.MixedParity && rapid.IntRange(0, 2).Draw(t, "second") != 0 {
+		// second polynomial: any degree the input level admits (not deeper than the first one plus one)
+		d2 := c.Level / lcpr
+		if prec128 {
+			d2 = (c.Level - 1) / 2
+		}
+		if d2 > depth+1 {
+			d2 = depth + 1
+		}
+		if d2 > 5 {
+			d2 = 5
+		}
+		if d2 >= 1 {
+			c.Degree2 = genDegree2(t, d2)
+			amp2 := math.Min(1, 8/float64(c.Degree2+1))
+			kind2 := "real"
+			if !c.Params.CI {
+				kind2 = kinds[rapid.IntRange(0, 5).Draw(t, "coeffKind2")]
+			}
+			for i := 0; i < npoly; i++ {
+				cs := make([][2]float64, c.Degree2+1)
+				for k := range cs {
+					re := float64(rapid.IntRange(-1024, 1024).Draw(t, fmt.Sprintf("d%d_%d", i, k))) / 1024 * amp2
+					im := 0.0
+					switch kind2 {
+					case "mixed":
+						im = float64(rapid.IntRange(-1024, 1024).Draw(t, fmt.Sprintf("di%d_%d", i, k))) / 1024 * amp2
+					case "imag":
+						re, im = 0, re
+					}
+					cs[k] = [2]float64{re, im}
+				}
+				c.Coeffs2 = append(c.Coeffs2, cs)
+			}
+			c.Target2Rel = 1
+			if rapid.Bool().Draw(t, "target2K") {
+				c.Target2Rel = rapid.Float64Range(0.5, 2).Draw(t, "target2Rel")
+			}
+		}
 	}
 	return c
 }
@@ -546,6 +602,9 @@ func runCKKS(c CKKSCase, rec *h.Rec) error {
 	}
 	if c.FromPB {
 		rec.Class("from-powerbasis")
+	}
+	if c.Sparse {
+		rec.Classf("sparse-packing:logslots=%d", c.LogSlots)
 	}
 
 	if pmsg != "" {
